@@ -48,6 +48,7 @@ def cases_for(run, tier):
 
 def check(tier):
     run = Run("C09", tier)
+    run.skip_key = ['fam', 'early', 'kinds', 'ninst', 'nalts', 'sel', 'ascomp', 'where', 'n', 'rank', 'own', 'ref', 'def']
     linker_cases, points = cases_for(run, tier)
     cases = linker_cases + points
     run.case_of = lambda ev: cases[ev["case"]] if "case" in ev and ev["case"] < len(cases) else None
